@@ -175,7 +175,11 @@ func isTimeNow(c *ssa.CallCommon) bool {
 }
 
 // checkSendOrder is R05.2.
-func checkSendOrder(c *Ctx, d Driver) {
+func checkSendOrder(c *Ctx, d Driver) { checkSendOrderAs(c, d, "R05.2", true) }
+
+// checkSendOrderAs: the ordering clause alone (stamps=false) is also the necessary condition of completeness (R02.6): a reply that
+// arrives before its probe is recorded is rejected as foreign and its hop is lost.
+func checkSendOrderAs(c *Ctx, d Driver, rule string, stamps bool) {
 	R := c.R
 	f := d.SendProbe
 	fn := core.FuncName(f)
@@ -210,7 +214,7 @@ func checkSendOrder(c *Ctx, d Driver) {
 			}
 		}
 	}
-	R.Floor("R05.2:wire-writes:"+d.Name, len(writes), 1)
+	R.Floor(rule+":wire-writes:"+d.Name, len(writes), 1)
 	for i, w := range writes {
 		key := fmt.Sprintf("%s#WriteTo[%d]", fn, i)
 		dom := false
@@ -219,7 +223,10 @@ func checkSendOrder(c *Ctx, d Driver) {
 				dom = true
 			}
 		}
-		R.Check(dom, "R05.2", key, w.Pos(), fn, "probe-table write dominates Sink.WriteTo", "no write of the sent-probe table dominates Sink.WriteTo: a reply can arrive before its probe is recorded")
+		R.Check(dom, rule, key, w.Pos(), fn, "probe-table write dominates Sink.WriteTo", "no write of the sent-probe table dominates Sink.WriteTo: a reply can arrive before its probe is recorded")
+		if !stamps {
+			continue
+		}
 		// the time stamp
 		okNow := false
 		for _, n := range nows {
@@ -244,6 +251,9 @@ func checkSendOrder(c *Ctx, d Driver) {
 			}
 		}
 		R.Check(okNow, "R05.2", key+"/timestamp", w.Pos(), fn, "time.Now() is taken before Sink.WriteTo", "send time is not taken before the wire write")
+	}
+	if !stamps {
+		return
 	}
 	// no time.Now after the write that feeds the table
 	for _, n := range nows {
